@@ -5,6 +5,7 @@ package main
 import (
 	"fmt"
 	"math/rand"
+	"reflect"
 	"strings"
 
 	"github.com/z7zmey/php-parser/pkg/ast"
@@ -15,6 +16,7 @@ func init() {
 	commands["oracle-C03"] = oracleC03
 	oracles["C03kw"] = evalC03keywords
 	oracles["C03v"] = evalC03versions
+	oracles["C03off"] = evalC03offset
 }
 
 type opW struct {
@@ -207,6 +209,62 @@ func evalC03versions(src []byte, cfg string) (o Outcome) {
 	return
 }
 
+// evalC03offset: a bare offset in a simple interpolation ("$a[offset]").  cfg = the node kind PHP's scanner
+// rules prescribe for the offset (ST_VAR_OFFSET: `[0]|([1-9][0-9]*)` that fits a 64-bit integer is an
+// integer, every other number spelling — leading zeros, hex, binary, overflow — is a string key that
+// keeps its text; `-` negates an integer and is prefixed to a string), and the versions to try.
+func evalC03offset(src []byte, cfg string) (o Outcome) {
+	sp := strings.SplitN(cfg, "/", 2)
+	want := sp[0]
+	for _, vs := range strings.Split(sp[1], ",") {
+		a, b := parseVer(vs)
+		po := parseSafe(src, ver(a, b), true)
+		if po.Panic != "" {
+			o.Fails = append(o.Fails, Failure{Site: "panic:" + po.Site, Kind: "input", Config: vs, Detail: clip(po.Panic, 200)})
+			continue
+		}
+		if po.Root == nil || len(po.Errs) > 0 {
+			o.Fails = append(o.Fails, Failure{Site: "offset-rejected", Kind: "input", Config: vs, Detail: "valid interpolation rejected: " + clip(errsStr(po.Errs), 200)})
+			continue
+		}
+		got := ""
+		val := ""
+		walkTree(po.Root, func(n ast.Vertex, _ int) {
+			df, ok := n.(*ast.ExprArrayDimFetch)
+			if !ok || got != "" || isNilVertex(df.Dim) {
+				return
+			}
+			switch d := df.Dim.(type) {
+			case *ast.ScalarLnumber:
+				got, val = "int", string(d.Value)
+			case *ast.ScalarString:
+				got, val = "str", string(d.Value)
+			case *ast.ExprUnaryMinus:
+				if l, ok := d.Expr.(*ast.ScalarLnumber); ok {
+					got, val = "negint", string(l.Value)
+				} else {
+					got = "neg-other"
+				}
+			default:
+				got = reflect.TypeOf(df.Dim).Elem().Name()
+			}
+		}, 0)
+		if got != want {
+			site := "offset-kind"
+			if want == "str" && (got == "int" || got == "negint") && len(val) > 1 && val[0] == '0' && strings.Trim(val, "0123456789") == "" {
+				site = "offset-kind:leading-zero"
+			}
+			if want == "str" && got == "negint" && val == "0" {
+				site = "offset-kind:leading-zero" // "-0": PHP keeps the string "-0"
+			}
+			o.Fails = append(o.Fails, Failure{Site: site, Kind: "input", Config: vs,
+				Detail: fmt.Sprintf("the offset is a %s node (value %q), PHP's rules make it %s", got, val, want)})
+		}
+	}
+	o.Nontrivial = true
+	return
+}
+
 var sevenOnly = []string{"<?php $a ?? $b;", "<?php $a <=> $b;", "<?php function f(int $x): ?string {}", "<?php use A\\{B, C};", "<?php new class {};", "<?php yield from $g;",
 	"<?php [$a, $b] = $c;", "<?php $a ??= 1;", "<?php fn($x) => $x;", "<?php class A { public int $p; }", "<?php try {} catch (A | B $e) {}", "<?php $x = (clone $a)->b;",
 	"<?php foo()();", "<?php class A { const B = 1 + 2; public function list() {} }"}
@@ -310,6 +368,20 @@ func oracleC03() *Result {
 	for _, s := range validStmts {
 		tasks = append(tasks, Task{Oracle: "C03v", Cfg: "valid", Src: []byte("<?php " + s), Tag: "valid"})
 		tasks = append(tasks, Task{Oracle: "C03v", Cfg: "valid", Src: []byte("<?php\r" + strings.ReplaceAll(s, " ", "\r")), Tag: "valid-lone-CR"})
+	}
+	// (4) offsets in simple interpolation
+	offs := []struct{ text, kind, vers string }{
+		{"0", "int", "5.6,7.4"}, {"7", "int", "5.6,7.4"}, {"42", "int", "5.6,7.4"}, {"9223372036854775807", "int", "5.6,7.4"},
+		{"9223372036854775808", "str", "5.6,7.4"}, {"99999999999999999999", "str", "5.6,7.4"},
+		{"0x1F", "str", "5.6,7.4"}, {"0xff", "str", "5.6,7.4"}, {"0b11", "str", "5.6,7.4"}, {"012", "str", "5.6,7.4"}, {"00", "str", "5.6,7.4"}, {"007", "str", "5.6,7.4"},
+		{"b", "str", "5.6,7.4"}, {"foo_1", "str", "5.6,7.4"},
+		{"-1", "negint", "7.4"}, {"-42", "negint", "7.4"}, {"-9223372036854775807", "negint", "7.4"},
+		{"-0x1F", "str", "7.4"}, {"-0b11", "str", "7.4"}, {"-99999999999999999999", "str", "7.4"}, {"-012", "str", "7.4"}, {"-0", "str", "7.4"},
+	}
+	for _, of := range offs {
+		for _, form := range []string{"<?php \"$a[%s]\";", "<?php echo \"x $a[%s] y\";", "<?php echo <<<A\n$a[%s]\nA;\n", "<?php `$a[%s]`;", "<?php \"$a[%s]$b[%s]\";"} {
+			tasks = append(tasks, Task{Oracle: "C03off", Cfg: of.kind + "/" + of.vers, Src: []byte(strings.ReplaceAll(form, "%s", of.text)), Tag: "interpolation-offset"})
+		}
 	}
 	runOracle(r, tasks)
 	return r
